@@ -35,7 +35,8 @@ ISINSTANCE = {"Decimal": "is_decimal", "EnumMeta": "is_enum_cls", "Enum": "is_en
 # pure unary builtins  name -> primitive (pyval -> pyval / bool)
 # monadic builtins name -> primitive (args -> out pyval)
 CALLS_M = {"str": ("py_str_v", 1), "len": ("py_len_v", 1), "Decimal": ("py_decimal", 1),
-           "round": ("py_round", 2), "abs": ("py_abs", 1), "list": ("py_list", 1)}
+           "round": ("py_round", 2), "abs": ("py_abs", 1), "list": ("py_list", 1),
+           "max": ("py_max2", 2), "min": ("py_min2", 2)}
 CALLS_B = {"multi": ("multi", 1), "unprovided": ("is_unprovided", 1), "callable": ("is_callable", 1)}
 
 BINOP = {ast.Mod: "py_mod", ast.FloorDiv: "py_floordiv", ast.Mult: "py_mul", ast.Add: "py_add",
